@@ -208,6 +208,10 @@ pub struct ClockModel {
     /// this many ticks (a counter that advances in uniform steps while
     /// reading it costs `read_step`). 0 = off.
     pub quantum: u64,
+    /// What the one-off measurement behind `Timer::bench_overheads` costs
+    /// (ticks); the scripted path charges it where the real code would spend
+    /// the time.
+    pub overhead_measure_cost: u64,
 }
 
 pub(crate) struct State {
